@@ -159,3 +159,30 @@ func Run(name string, f func()) (outcome string) {
 	f()
 	return
 }
+
+// Record switches the executor's thread-modular recording mode (no effect natively).
+func Record(on bool) {}
+
+// EnvHook lets a native replay decide the outcome of environment calls.
+var EnvHook func(name string) bool
+
+// EnvCall is an environment call with a nondeterministic failure outcome.
+func EnvCall(name string) bool {
+	if EnvHook != nil {
+		return EnvHook(name)
+	}
+	return Bool("fail_" + name)
+}
+
+// RecReturn records the main thread's result in recording mode.
+func RecReturn(fail bool) {}
+
+// YieldHook is installed by a native replay that instruments the code under test with
+// scheduling points; Yield is a no-op otherwise (and under the symbolic executor).
+var YieldHook func(thread string)
+
+func Yield(thread string) {
+	if YieldHook != nil {
+		YieldHook(thread)
+	}
+}
